@@ -39,7 +39,7 @@ T == 1..g.n
 EK == {"b", "s"}
 
 Viol(prop, sig) ==
-  /\ PrintT(<<"MONITOR-VIOLATION", prop, sig, l>>)
+  /\ PrintT("MONITOR-VIOLATION " \o prop \o " @" \o ToString(l) \o " " \o ToString(sig))
   /\ TLCSet(1, TLCGet(1) + 1)
 
 \* evaluate a predicate, report when it fails; always TRUE so that the fold goes on
@@ -225,6 +225,6 @@ Spec == Init /\ [][Next]_vars
 \* acceptance: every line consumed and no predicate failed
 Accepted == /\ IF TLCGet("stats").diameter = Len(Rec) + 1 THEN TRUE
                ELSE PrintT(<<"TRACE-NOT-CONSUMED", TLCGet("stats").diameter, Len(Rec)>>) /\ FALSE
-            /\ TLCGet(1) = 0
             /\ PrintT(<<"TRACE-LINES", Len(Rec)>>)
+            /\ TLCGet(1) = 0
 =============================================================================
